@@ -29,6 +29,10 @@ def _key_is_raw_reference(fi, key):
     return False
 
 
+def byname_res(idx):
+    return {d.cls.name: (d, r) for d, r in R.results(idx).values() if d.module.name.endswith(("eems.basic", "eems.fuzzy"))}
+
+
 def run(ctx, idx):
     A = K.anchors(idx)
     ctx.assume("numpy axioms A1-A3, A14: which constructors and operators yield a MaskedArray")
@@ -80,7 +84,10 @@ def run(ctx, idx):
             return True
         if fi is not None and site is not None and fi.cls is prog and error_path_only(fi, site):
             return True
-        if fi is not None and fi not in load_reach and fi.cls is not None and (fi.cls is prog or A.command in idx.mro(fi.cls)):
+        top_ = fi
+        while top_ is not None and getattr(top_, "parent", None) is not None:
+            top_ = top_.parent
+        if top_ is not None and top_ not in load_reach and fi not in load_reach and top_.cls is not None and (top_.cls is prog or A.command in idx.mro(top_.cls)):
             # in the program or a command, reachable only once the program is loaded: the table is complete, so the order of the
             # file cannot show in what the lookup finds (what is done with the command found is the business of C01/C12/C14/C20)
             return True
@@ -119,6 +126,23 @@ def run(ctx, idx):
         if name_ not in byname:
             raise AnalysisError("conversion command %s vanished" % name_)
         delegation(ctx, idx, byname[name_][0], byname[name_][1], base_, rule="C02.h")
+    # ---- i: an explicit zero is a value (every command, not only the conversions of C08.g)
+    ctx.rule("C02.i", "A numeric argument is used as the number it is: no execute body tests one for truthiness (`kwargs.get(X) or default`, `if threshold:`), which would treat an explicit 0 as an omitted argument and evaluate a different graph.")
+    n_i = 0
+    for key_, (d_, r_) in sorted(R.results(idx).items()):
+        nt = [f for f in r_.findings if f[0] == "numtruth"]
+        con_ = "%s.execute::zero-is-a-value" % d_.key
+        n_i += 1
+        if nt:
+            ctx.violate("C02.i", con_, d_.module.rel, nt[0][1], nt[0][2])
+        else:
+            ctx.hold("C02.i", con_, d_.module.rel, d_.execute.node.lineno, "numeric parameters are not used as booleans", nontrivial=False)
+    ctx.floor("C02.i", "execute bodies", n_i, 30)
+    # ---- j: the statistics a command anchors its curve on are taken from the whole input
+    from .C08 import mean_to_mid_points
+
+    ctx.rule("C02.j", "NormalizeMeanToMid (and the fuzzy conversion built on it) anchors its curve on the minimum and maximum of the whole input; IgnoreZeros narrows only the means (C08.h's reading of the body, listed here because the result of the command is what C02 is about).")
+    mean_to_mid_points(ctx, idx, byname_res(idx), "C02.j")
     # ---- b, c, d
     n_exec = 0
     for key, (d, r) in sorted(R.results(idx).items()):
@@ -139,9 +163,14 @@ def run(ctx, idx):
                 probs.append((line, "file-system mutation: %s" % text))
             if kind == "dependency-store":
                 probs.append((line, "stores an attribute on a dependency: %s" % text))
+        for f_ in r.findings:
+            if f_[0] == "arg-mutation":
+                probs.append((f_[1], f_[2]))
         for n in own_nodes(fi.node):
             if isinstance(n, (ast.Global, ast.Nonlocal)):
                 probs.append((n.lineno, "declares global state"))
+        for f_, deco_ in K.memoised_helpers(idx, fi)[:1]:
+            probs.append((f_.node.lineno, "calls `%s`, whose results are kept between executions by `@%s` (keyed by its arguments only): what the command returns depends on what ran earlier in the process, and the cached object is handed out again to be modified in place" % (f_.name, deco_)))
         su_ = K.state_uses(idx, fi)
         if su_ and K.state_is_content_checked(idx, fi, su_):
             raise AnalysisError("C02.b: %s keeps module-level state `%s` but compares it with the text it has just read before reusing it (a content-validated cache): cannot decide whether the validation is complete" % (d.cls.name, su_[0][2][1]))
